@@ -110,6 +110,7 @@ def observe(name, X, rep, pipeline, k=None):
     det = dets.make_detector(name, **extra_kw(name))
     n = len(X)
     full = represent(X, rep)
+    full0 = full.copy()
     try:
         if pipeline == "same":
             det.fit(full)
@@ -133,6 +134,11 @@ def observe(name, X, rep, pipeline, k=None):
                 obs["tscores_index_ok"] = bool(ts.index.equals(expected_index(rep, n)))
             except NotImplementedError:
                 pass
+        same_input = np.array_equal(np.asarray(full), np.asarray(full0))
+        if isinstance(full, (pd.Series, pd.DataFrame)):
+            same_input = same_input and full.index.equals(full0.index)
+        if not same_input:
+            return {"exc": "InputModified: the data object passed in was modified in place"}
         return obs
     except Exception as e:
         return {"exc": f"{type(e).__name__}: {str(e)[:150]}"}
